@@ -3,16 +3,16 @@
 // C07 - driver "html": runs the real extractor / postprocessor / NormalizeURL on a generated
 // document and writes the Coq case (coq/Html/HtmlHarness.v).
 //
-//   1. render the DOM to HTML text, parse it with goquery (golang.org/x/net/html) and compare the
-//      parser's tree with the generated DOM node by node (h_readback);
-//   2. extractor.HTMLAssets and extractor.HTMLOutlinks on an item built the way /repo's extractor
-//      tests build theirs (http.Response + archiver.ProcessBody);
-//   3. extractor.resolveURL on every raw <a> attribute value (the oracle table of the model);
-//   4. postprocessor.postprocessItem on a fresh item of the generated state (depth = chain of
-//      parents, hops, status, content type) under the generated configuration: children = assets,
-//      returned items = outlinks;
-//   5. preprocessor.NormalizeURL on every child (parent = the page) and on every outlink (no
-//      parent), as the next pass of the pipeline does.
+//  1. render the DOM to HTML text, parse it with goquery (golang.org/x/net/html) and compare the
+//     parser's tree with the generated DOM node by node (h_readback);
+//  2. extractor.HTMLAssets and extractor.HTMLOutlinks on an item built the way /repo's extractor
+//     tests build theirs (http.Response + archiver.ProcessBody);
+//  3. extractor.resolveURL on every raw <a> attribute value (the oracle table of the model);
+//  4. postprocessor.postprocessItem on a fresh item of the generated state (depth = chain of
+//     parents, hops, status, content type) under the generated configuration: children = assets,
+//     returned items = outlinks;
+//  5. preprocessor.NormalizeURL on every child (parent = the page) and on every outlink (no
+//     parent), as the next pass of the pipeline does.
 package main
 
 import (
@@ -361,7 +361,13 @@ func coqOptTab(t [][2]*string) string {
 	return coqList(it)
 }
 
-func execHTML(input string) Result {
+func execHTML(input string) Result { return execCase(input, false) }
+
+// execReq: the same observations taken through the seed tree - redirect chain, real postprocess(),
+// real preprocess() - see req.go.
+func execReq(input string) Result { return execCase(input, true) }
+
+func execCase(input string, pipeline bool) Result {
 	var c Case
 	if err := json.Unmarshal([]byte(input), &c); err != nil {
 		panic("bad html input: " + err.Error())
@@ -378,7 +384,15 @@ func execHTML(input string) Result {
 		note("extractor: " + ex.err)
 		tags = append(tags, "extract-error")
 	}
-	pa, po, perr := runPost(&c, body)
+	var pa, po []string
+	var perr string
+	var pipe *pipeObs
+	if pipeline {
+		pipe = runPipeline(&c, body)
+		pa, po, perr = pipe.assets, pipe.outlinks, pipe.err
+	} else {
+		pa, po, perr = runPost(&c, body)
+	}
 	if perr != "" {
 		note("postprocessItem: " + perr)
 		tags = append(tags, "post-error")
@@ -412,15 +426,22 @@ func execHTML(input string) Result {
 	dom := c.dom()
 	plants := collectPlants(dom)
 
-	normA, normO := normTable(&c, pa, true), normTable(&c, po, false)
+	normA, normO := [][2]*string(nil), [][2]*string(nil)
+	reached := "[]"
+	if pipeline {
+		normA, normO = pipe.reqAssets, pipe.reqOutlinks
+		reached = coqSList(pipe.tree)
+	} else {
+		normA, normO = normTable(&c, pa, true), normTable(&c, po, false)
+	}
 	cfg := fmt.Sprintf("(Cfg %s %s %s %s)", coqSList(c.Cfg.Dis), coqBool(c.Cfg.Alt), coqBool(c.Cfg.NoAssets), coqZ(int64(c.Cfg.MaxHops)))
 	st := fmt.Sprintf("(PState %s %s %s %s %s)", coqZ(int64(c.St.Status)), coqZ(int64(c.St.Depth)), coqBool(ex.mimeHTML), coqZ(int64(c.St.Hops)), coqBool(c.St.DC))
-	term := fmt.Sprintf("(HC %s %s %s %s %s %s [%s] %s %s %s %s %s %s %s %s %s %s)",
+	term := fmt.Sprintf("(HC %s %s %s %s %s %s [%s] %s %s %s %s %s %s %s %s %s %s %s %s)",
 		cfg, st, coqLoc(&c.Page), coqBool(htmlRepaired), coqBool(isHTML), coqBool(sweep),
 		coqNode(dom), coqBool(rb == "" && ex.err == "" && perr == ""), coqList(plants),
 		coqSList(ex.assets), coqSList(ex.outlinks), coqOptTab(restab),
 		coqSList(pa), coqSList(po), coqList(matchtab),
-		coqOptTab(normA), coqOptTab(normO))
+		coqOptTab(normA), coqOptTab(normO), coqBool(pipeline), reached)
 	term = wrapInterned(term)
 
 	// distribution tags
@@ -459,11 +480,23 @@ func execHTML(input string) Result {
 	default:
 		tags = append(tags, "ctype-html")
 	}
+	if pipeline && len(c.Chain) > 0 && c.Chain[0].String() != c.Page.String() {
+		tags = append(tags, "seed-differs-from-page")
+	}
 	kinds := 0
 	for _, t := range c.Tags {
 		if strings.HasPrefix(t, "plant-") {
 			kinds++
 		}
+	}
+	if pipeline {
+		built := 0
+		for _, e := range normA {
+			if e[1] != nil {
+				built++
+			}
+		}
+		return Result{Term: term, Tags: tags, Nontrivial: len(c.Chain) > 0 && c.Chain[0].String() != c.Page.String() && len(plants) >= 3 && built > 0}
 	}
 	return Result{Term: term, Tags: tags, Nontrivial: len(plants) >= 3 && kinds >= 2 && len(ex.assets) > 0}
 }
@@ -555,3 +588,5 @@ func shrinkHTML(input string) []string {
 	emit(func(c *Case) bool { ok := c.Doctype != 1; c.Doctype = 1; return ok })
 	return out
 }
+
+func jsonUnmarshal(s string, v interface{}) error { return json.Unmarshal([]byte(s), v) }
